@@ -1205,6 +1205,28 @@ func unitsNeeded(n, proto int) int {
 	return (n + 7) / 8
 }
 
+// wParseCmsg runs parse (a ControlMessage.Parse method value) on a tight copy of b and turns
+// a panic into a violation of its own, so that the case carries on with its remaining
+// buffers. The key names the one shape of buffer known to matter: a control message of the
+// package's own level (lvl) whose type is 0, the value the unset entries of the package's
+// option table carry; any other panic gets a different key.
+func wParseCmsg(c *verifrt.Case, fam string, lvl int32, b []byte, parse func([]byte) error) (err error, panicked bool) {
+	defer func() {
+		if p := recover(); p != nil {
+			key := "cmsg" + fam + "-parse-panic-other"
+			ms, _ := wCmsgWalk(b)
+			for _, m := range ms {
+				if m.level == lvl && m.typ == 0 {
+					key = "cmsg" + fam + "-parse-panic-own-level-cmsg-type-0"
+				}
+			}
+			c.Violation(key, "ControlMessage.Parse(%x) panics: %v", b, p)
+			err, panicked = nil, true
+		}
+	}()
+	return parse(wTight(b)), false
+}
+
 // wCheckCmsg: ipv4.ControlMessage and ipv6.ControlMessage against the cmsg(3) layout.
 func wCheckCmsg(r *verifrt.R) {
 	le32 := func(v uint32) []byte { return binary.LittleEndian.AppendUint32(nil, v) }
@@ -1242,7 +1264,8 @@ func wCheckCmsg(r *verifrt.R) {
 				}
 				// and back through Parse: the interface index survives
 				var back ipv4.ControlMessage
-				if err := back.Parse(wTight(b)); err != nil {
+				if err, panicked := wParseCmsg(c, "4", wIPPROTO_IP, b, back.Parse); panicked {
+				} else if err != nil {
 					c.Violation("cmsg4-parse-refuses-marshalled", "Parse(Marshal(%v)): %v", cm, err)
 				} else if back.IfIndex != cm.IfIndex || !back.Dst.Equal(net.IPv4zero) || back.TTL != 0 {
 					c.Violation("cmsg4-roundtrip", "Parse(Marshal(%v)) = %v; want ifindex %d, dst 0.0.0.0, ttl 0", cm, &back, cm.IfIndex)
@@ -1276,9 +1299,9 @@ func wCheckCmsg(r *verifrt.R) {
 					want.IfIndex, want.Dst = int(idx), net.IP(dst)
 				case 2: // another level: ignored
 					buf = wCmsgAppend(buf, wCmsg{int32(g.pick(1, 41, 6, 17, 255)), int32(g.pick(wIP_TTL, wIP_PKTINFO, 1, 29)), g.bytes(g.rng.IntN(24))}, pad)
-				default: // unknown type at the IP level, or a known type with too little data: ignored
+				default: // unknown type at the IP level (0 included: no option has that name), or a known type with too little data: ignored
 					if g.rng.IntN(2) == 0 {
-						buf = wCmsgAppend(buf, wCmsg{wIPPROTO_IP, int32(g.pick(1, 3, 7, 9, 20, 100)), g.bytes(g.rng.IntN(24))}, pad)
+						buf = wCmsgAppend(buf, wCmsg{wIPPROTO_IP, int32(g.pick(0, 1, 3, 7, 9, 20, 100)), g.bytes(g.rng.IntN(24))}, pad)
 					} else {
 						buf = wCmsgAppend(buf, wCmsg{wIPPROTO_IP, wIP_PKTINFO, g.bytes(g.rng.IntN(12))}, pad)
 					}
@@ -1286,7 +1309,8 @@ func wCheckCmsg(r *verifrt.R) {
 			}
 			c.Describe(map[string]any{"ipv4 control buffer": fmt.Sprintf("%x", buf)})
 			var got ipv4.ControlMessage
-			if err := got.Parse(wTight(buf)); err != nil {
+			if err, panicked := wParseCmsg(c, "4", wIPPROTO_IP, buf, got.Parse); panicked {
+			} else if err != nil {
 				c.Violation("cmsg4-parse-refuses-wellformed", "Parse(%x): %v", buf, err)
 			} else if got.TTL != want.TTL || got.IfIndex != want.IfIndex || !bytes.Equal(got.Dst.To4(), want.Dst.To4()) || got.Src != nil {
 				c.Violation("cmsg4-parse-wrong", "Parse(%x) = %v, want %v", buf, &got, &want)
@@ -1313,7 +1337,7 @@ func wCheckCmsg(r *verifrt.R) {
 				}
 				c.Describe(map[string]any{"ipv4 control buffer (mutated)": fmt.Sprintf("%x", mb)})
 				var x ipv4.ControlMessage
-				x.Parse(wTight(mb))
+				wParseCmsg(c, "4", wIPPROTO_IP, mb, x.Parse)
 				r.Event("cmsg_mutated_parses", 1)
 			}
 		}
@@ -1371,7 +1395,8 @@ func wCheckCmsg(r *verifrt.R) {
 				c.Violation("cmsg6-marshal-wrong", "Marshal(%v) = %x; reference cmsg sequence %x", cm, b, refBuf)
 			} else if len(b) > 0 {
 				var back ipv6.ControlMessage
-				if err := back.Parse(wTight(b)); err != nil {
+				if err, panicked := wParseCmsg(c, "6", wIPPROTO_IPV6, b, back.Parse); panicked {
+				} else if err != nil {
 					c.Violation("cmsg6-parse-refuses-marshalled", "Parse(Marshal(%v)): %v", cm, err)
 				} else {
 					wantDst := net.IP(nil)
@@ -1423,7 +1448,7 @@ func wCheckCmsg(r *verifrt.R) {
 					buf = wCmsgAppend(buf, wCmsg{int32(g.pick(0, 1, 6, 17, 58, 255)), int32(g.pick(wIPV6_TCLASS, wIPV6_HOPLIMIT, wIPV6_PKTINFO, wIPV6_PATHMTU)), g.bytes(g.rng.IntN(40))}, pad)
 				default:
 					if g.rng.IntN(2) == 0 {
-						buf = wCmsgAppend(buf, wCmsg{wIPPROTO_IPV6, int32(g.pick(1, 2, 51, 53, 60, 62, 66, 100)), g.bytes(g.rng.IntN(40))}, pad)
+						buf = wCmsgAppend(buf, wCmsg{wIPPROTO_IPV6, int32(g.pick(0, 1, 2, 51, 53, 60, 62, 66, 100)), g.bytes(g.rng.IntN(40))}, pad)
 					} else {
 						buf = wCmsgAppend(buf, wCmsg{wIPPROTO_IPV6, int32(g.pick(wIPV6_PKTINFO, wIPV6_PATHMTU)), g.bytes(g.rng.IntN(20))}, pad)
 					}
@@ -1431,7 +1456,8 @@ func wCheckCmsg(r *verifrt.R) {
 			}
 			c.Describe(map[string]any{"ipv6 control buffer": fmt.Sprintf("%x", buf)})
 			var got ipv6.ControlMessage
-			if err := got.Parse(wTight(buf)); err != nil {
+			if err, panicked := wParseCmsg(c, "6", wIPPROTO_IPV6, buf, got.Parse); panicked {
+			} else if err != nil {
 				c.Violation("cmsg6-parse-refuses-wellformed", "Parse(%x): %v", buf, err)
 			} else if got.TrafficClass != want.TrafficClass || got.HopLimit != want.HopLimit || got.IfIndex != want.IfIndex || got.MTU != want.MTU || !bytes.Equal(got.Dst, want.Dst) || got.Src != nil || got.NextHop != nil {
 				c.Violation("cmsg6-parse-wrong", "Parse(%x) = %v, want %v", buf, &got, &want)
@@ -1457,7 +1483,7 @@ func wCheckCmsg(r *verifrt.R) {
 				}
 				c.Describe(map[string]any{"ipv6 control buffer (mutated)": fmt.Sprintf("%x", mb)})
 				var x ipv6.ControlMessage
-				x.Parse(wTight(mb))
+				wParseCmsg(c, "6", wIPPROTO_IPV6, mb, x.Parse)
 				r.Event("cmsg_mutated_parses", 1)
 			}
 		}
